@@ -168,6 +168,16 @@ class _Frame:
         self.it = it
         self.f = f
         self.rets = rets
+        # locals that name a paired / numbered iteration: `pairs = zip(A, B)` ... `for i, (a, b) in enumerate(pairs)`
+        self.iter_defs: dict[str, ast.expr] = {}
+        stores: dict[str, int] = {}
+        for n in ast.walk(f.node):
+            if isinstance(n, ast.Name) and isinstance(n.ctx, ast.Store):
+                stores[n.id] = stores.get(n.id, 0) + 1
+        for n in ast.walk(f.node):
+            if isinstance(n, ast.Assign) and len(n.targets) == 1 and isinstance(n.targets[0], ast.Name) and stores.get(n.targets[0].id) == 1 and isinstance(n.value, ast.Call) \
+                    and isinstance(n.value.func, ast.Name) and n.value.func.id in ("zip", "enumerate", "reversed"):
+                self.iter_defs[n.targets[0].id] = n.value
 
     # ------------------------------------------------------------------ names / labels
     def _ren(self, e: ast.AST, ren: dict) -> str:
@@ -487,6 +497,13 @@ class _Frame:
                 cones[n.target.id] = self.cone(n.value, cones)
 
     def _for(self, st: ast.For, env: dict, cones: dict, ren: dict, depth: int) -> None:
+        it0 = st.iter
+        if isinstance(it0, ast.Name) and it0.id in self.iter_defs:
+            st = ast.copy_location(ast.For(st.target, self.iter_defs[it0.id], st.body, st.orelse), st)
+        elif isinstance(it0, ast.Call) and isinstance(it0.func, ast.Name) and it0.func.id in ("enumerate", "reversed") and it0.args and isinstance(it0.args[0], ast.Name) \
+                and it0.args[0].id in self.iter_defs:
+            new_it = ast.copy_location(ast.Call(it0.func, [self.iter_defs[it0.args[0].id], *it0.args[1:]], it0.keywords), it0)
+            st = ast.copy_location(ast.For(st.target, new_it, st.body, st.orelse), st)
         lists = {k: v for k, v in env.items() if isinstance(v, _AList)}
         dom, lits = self.domain(st.iter, env, ren)
         tv = [n.id for n in ast.walk(st.target) if isinstance(n, ast.Name)]
